@@ -25,6 +25,10 @@ type Member struct {
 	// AgeMode "start": only start stamps are shifted (objects that ran for a long time and ended recently);
 	// "end": only end stamps. Default: both.
 	AgeMode string `json:"agemode"`
+	// KWhen "blkfailed-chkrunning": the crash point is the first one at which a block is durably Failed while a check
+	// group or check action is durably Running (KPct is used when the execution has no such point)
+	KWhen string           `json:"kwhen"`
+	Lat   map[string][]int `json:"lat"`
 }
 
 func shiftState(st workflow.State, d time.Duration, mode string) workflow.State {
@@ -77,7 +81,7 @@ func runResume(rec *recorder, sc *Scenario) error {
 		if err != nil {
 			return err
 		}
-		msc := &Scenario{ID: sc.ID, Shape: m.Shape, Out: m.Out, Mode: "free", Seed: sc.Seed + int64(pl), LatMaxUs: 50, ContDelayUs: 300}
+		msc := &Scenario{ID: sc.ID, Shape: m.Shape, Out: m.Out, Lat: m.Lat, Mode: "free", Seed: sc.Seed + int64(pl), LatMaxUs: 50, ContDelayUs: 300}
 		bs := newSched(scratchRec, msc, 0, 1)
 		breg := mkReg(bs)
 		bv, err := newVault(ctx, breg)
@@ -117,6 +121,32 @@ func runResume(rec *recorder, sc *Scenario) error {
 		k := len(writes) * m.KPct / 100
 		if m.KPct >= 100 {
 			k = len(writes)
+		}
+		if m.KWhen == "blkfailed-chkrunning" {
+			last := map[uuid.UUID]workflow.Status{}
+			for i, w := range writes {
+				last[w.id] = w.state.Status
+				blkFailed, chkRunning := false, false
+				for id, st := range last {
+					nme := pr.nm.get(id)
+					isChk := false
+					for _, g := range groupOrder {
+						if strings.HasSuffix(nme, "."+g) || strings.Contains(nme, "."+g+".") {
+							isChk = true
+						}
+					}
+					if isChk && st == workflow.Running {
+						chkRunning = true
+					}
+					if !isChk && strings.HasPrefix(nme, "b") && !strings.Contains(nme, ".") && st == workflow.Failed {
+						blkFailed = true
+					}
+				}
+				if blkFailed && chkRunning && last[id] == workflow.Running { // id: the plan itself is still Running
+					k = i + 1
+					break
+				}
+			}
 		}
 		age := time.Duration(m.AgeS) * time.Second
 		pristine.SubmitTime = pristine.SubmitTime.Add(-age)
@@ -189,7 +219,13 @@ func runResume(rec *recorder, sc *Scenario) error {
 			opts = []coercion.Option{coercion.WithNoRecovery(), coercion.WithMaxLastUpdate(maxAge), coercion.WithMaxSubmit(time.Hour)}
 		}
 	}
-	ws, err := coercion.New(ctx, reg, sp, opts...)
+	ws, err, stuck := newWS(ctx, reg, sp, opts...)
+	if stuck {
+		for pl := range runs {
+			s.emit(pl, func() ev { return ev{"ev": "Hang"} })
+		}
+		return errHang
+	}
 	if err != nil {
 		return fmt.Errorf("New on shared store: %w", err)
 	}
